@@ -672,6 +672,23 @@ def check_keep(ctx, rep):
         rep.violation("KO", kept[0], f, "without polarity getOrientation returns %s" % pretty(kept[1]),
                       "cells without polarity must keep the orientation they had on input (cellTargetOrientation_[cell])",
                       key="LegalizerBase::getOrientation|kept orientation is not the input orientation")
+    # the converse: with a polarity, every other exit of getOrientation returns what cellOrientationInRow prescribes (also INVALID,
+    # which is what makes the legalizers skip the row) - no exit that answers with the incoming orientation for some other reason
+    for x in walk(f.body):
+        if x.get("kind") != "ReturnStmt" or not children(x):
+            continue
+        guards = ctx.guards(f, x) or []
+        if any(expand_locals(ctx, f, gc)[0] == "bin" and gc[1] == "==" and gc[3] == UNKNOWN_O and val is True for gc, val, _a, _b in guards):
+            continue
+        if any(gc[0] == "bin" and gc[1] == "!=" and gc[3] == UNKNOWN_O and val is False for gc, val, _a, _b in guards):
+            continue
+        rc = expand_locals(ctx, f, canon(children(x)[0]))
+        if rc[0] == "call" and rc[1].endswith("cellOrientationInRow"):
+            rep.holds("KO", x, f, "with a polarity getOrientation returns cellOrientationInRow(polarity, row orientation)")
+        else:
+            rep.violation("KO", x, f, "getOrientation returns %s on a path where the row prescribes an orientation" % pretty(canon(children(x)[0]))[:80],
+                          "only the answer UNKNOWN (no polarity) lets the cell keep its orientation; on this exit the prescribed orientation - or the verdict "
+                          "INVALID that keeps the cell out of the row - is replaced", key="LegalizerBase::getOrientation|exit bypasses the orientation table")
     ws = [(ff, x, u) for ff, x, u in field_writes_local(ctx, CQ + "LegalizerBase::cellTargetOrientation_")]
     bad = [(ff, u) for ff, x, u in ws if not (ff.kind == "CXXConstructorDecl" and ff.cls == CQ + "LegalizerBase")]
     if bad:
